@@ -18,4 +18,4 @@ def run(ctx):
     if ctx.thorough:
         st.append(dict(variant="prod", name="c11p", sources=["checks/c11_pubkey.c"], wraps=["psGetEntropy"], libs=["-lcrypto"],
                        args=args + extra, timeout=7200))
-    return vflib.std_run(ctx, st, "differential+by-construction oracle", RULE, ASSUME, min_nontrivial=400)
+    return vflib.std_run(ctx, st, "exploration", RULE, ASSUME, min_nontrivial=400)
